@@ -458,7 +458,7 @@ impl System for BSys {
                 }
                 // keep the ghost train labels only for trains the receiver really holds
                 for g in 0..3 {
-                    let held = n.rx.mem.frags[g % 2].as_ref().map(|c| c.0.frag_id as usize == g).unwrap_or(false);
+                    let held = n.rx.mem.ctx_in_class(g as u8).map(|c| c.0.frag_id as usize == g).unwrap_or(false);
                     if !held {
                         n.train[g] = None;
                     }
